@@ -365,7 +365,7 @@ class _Corr:
 
 def _rand_grid(rng, kind=None):
     """tick grid of a given kind; values are multiples of BIG ticks"""
-    kind = kind or rng.choice(["asc", "asc", "desc", "desc", "zero", "nonmono", "short", "asc2", "desc2", "mixedzero"])
+    kind = kind or rng.choice(["asc", "asc", "desc", "desc", "zero", "nonmono", "short", "asc2", "desc2", "mixedzero", "tinyfirst"])
     n = rng.randint(2, 7)
     t0 = rng.randint(-6, 6) * BIG * rng.choice([1, 1, 4])
     if kind in ("asc", "desc"):
@@ -380,6 +380,12 @@ def _rand_grid(rng, kind=None):
         ts = [t0] * n
     elif kind == "short":
         ts = [t0] * rng.randint(0, 1)
+    elif kind == "tinyfirst":
+        # first step far below np.isclose's tolerance, total span well above it (the zero-span short circuit must look at the END points)
+        sgn = rng.choice([1, -1])
+        ts = [t0, t0 + sgn * rng.randint(1, 3)]
+        for _ in range(rng.randint(1, 3)):
+            ts.append(ts[-1] + sgn * rng.randint(1, 9) * BIG)
     elif kind == "mixedzero":
         ts = [t0, t0 + BIG, t0 + BIG] + [t0 + 2 * BIG] * rng.randint(0, 1)
     else:
@@ -390,6 +396,16 @@ def _rand_grid(rng, kind=None):
         if np.all(d > 0) or np.all(d < 0):
             ts[-1] = ts[-2] - (ts[1] - ts[0])
     return kind, ts
+
+
+def _fake_system(ham):
+    """minimal system object; `ham=True` makes it satisfy the runtime-checkable Hamiltonian protocol so that `integrate`
+    dispatches to the `*_ham` twin drivers"""
+    base = dict(rhs=lambda t, y: np.array([1.0]), dim=1)
+    if ham:
+        base.update(_build_rhs_impl=lambda: None, n_dof=1, dH_dQ=lambda Q, P: Q, dH_dP=lambda Q, P: P, poly_H=lambda: [],
+                    rhs_params=(None, None, 1))
+    return types.SimpleNamespace(**base)
 
 
 def _close_bit(ts):
@@ -425,11 +441,16 @@ def corr_validate_fixed_sym(ctx, C, n_cases):
 
         order = rng.choice(sorted(rk.FixedRK._map))
         integ = rk.FixedRK(order)
-        loop_py = _plain_copy(rk._FixedStepRK._integrate_fixed_rk, {"rk_embedded_step_jit_kernel": step_stub})
+        ham = rng.random() < 0.35
+        kname = "_integrate_fixed_rk_ham" if ham else "_integrate_fixed_rk"
+        loop_py = _plain_copy(getattr(rk._FixedStepRK, kname), {
+            "rk_embedded_step_jit_kernel": step_stub,
+            "rk_embedded_step_ham_jit_kernel": lambda t, y, h, A, B, BL, Cc, has, jac, clmo, nd: step_stub(None, t, y, h, A, B, BL, Cc, has),
+            "_hamiltonian_rhs": lambda y, jac, clmo, nd: np.array([1.0])})
         y0 = np.array([0.5])
         try:
-            with _patched(rk._FixedStepRK, "_integrate_fixed_rk", staticmethod(loop_py)):
-                sol = integ.integrate(fake, y0, tv.copy())
+            with _patched(rk._FixedStepRK, kname, staticmethod(loop_py)):
+                sol = integ.integrate(_fake_system(ham), y0, tv.copy())
             tt = _to_ticks(sol.times)
             lg = [(_to_ticks([a])[0], _to_ticks([b])[0]) for a, b in log]
             ok_first = bool(np.array_equal(sol.states[0], y0))
@@ -438,7 +459,7 @@ def corr_validate_fixed_sym(ctx, C, n_cases):
                 real += " FIRST-SAMPLE-NOT-Y0"
         except Exception as ex:
             real = "fix err:" + _err_class(ex)
-        C.add("fixed_integrate", "FIX %d %s" % (_close_bit(ts), _ints(ts)), real, {"grid": ts, "order": order})
+        C.add("fixed_integrate", "FIX %d %s" % (_close_bit(ts), _ints(ts)), real, {"grid": ts, "order": order, "hamiltonian_twin": ham})
         # ---- symplectic integrate, _fwd = +1 / -1
         fwd = rng.choice([1, -1])
         dts = []
@@ -524,6 +545,11 @@ class _AdaptiveStub:
             "_rk45_build_Q_cache": lambda Kseg, P, dim: Kseg,
             "_rk45_eval_dense": self.eval45,
             "_dop853_build_dense_cache": self.build853,
+            # Hamiltonian twins of the same drivers (`*_ham`): same control flow, parametric rhs
+            "rk45_step_ham_jit_kernel": lambda t, y, h, A, B, Cc, E, jac, clmo, nd: self.step45(None, t, y, h, A, B, Cc, E),
+            "dop853_step_ham_jit_kernel": lambda t, y, h, A, B, Cc, E5, E3, jac, clmo, nd: self.step853(None, t, y, h, A, B, Cc, E5, E3),
+            "_hamiltonian_rhs": lambda y, jac, clmo, nd: np.array([1.0]),
+            "_dop853_build_dense_cache_ham": self.build853,
             "_dop853_eval_dense": self.eval853,
         }
 
@@ -571,18 +597,20 @@ def corr_adaptive(ctx, C, n_cases):
     fake = types.SimpleNamespace(rhs=lambda t, y: np.array([1.0]), dim=1)
     y0v = 0.5
     for it in range(n_cases):
-        kind, ts = _rand_grid(rng, rng.choice(["asc", "asc", "asc", "asc2", "desc", "desc2", "zero", "nonmono", "short"]))
+        kind, ts = _rand_grid(rng, rng.choice(["asc", "asc", "asc", "asc2", "desc", "desc2", "zero", "nonmono", "short", "tinyfirst"]))
         tv = np.array([t * TICK for t in ts], dtype=float)
         k = rng.choice(["45", "853"])
         cls = rk._RK45 if k == "45" else rk._DOP853
-        kern = "_integrate_rk45" if k == "45" else "_integrate_dop853"
+        ham = rng.random() < 0.35
+        fake = _fake_system(ham)
+        kern = ("_integrate_rk45" if k == "45" else "_integrate_dop853") + ("_ham" if ham else "")
         h0 = rng.choice([1, 2, 3, 5, 8, 40]) * BIG
         maxS = rng.choice([4 * BIG, 16 * BIG, 1 << 40])
         minS = rng.choice([1, BIG // 16, BIG])
         stub = _AdaptiveStub(rng, h0 * TICK, rng.randint(0, 10))
         loop_py = _plain_copy(getattr(cls, kern), stub.overrides())
         integ = cls(rtol=1.0, atol=1.0, max_step=maxS * TICK, min_step=minS * TICK)
-        ctx.case(("adaptive", k, kind, len(ts), h0, maxS, minS, tuple(stub.plan[:3])), kind="adaptive:%s:%s" % (k, kind))
+        ctx.case(("adaptive", k, ham, kind, len(ts), h0, maxS, minS, tuple(stub.plan[:3])), kind="adaptive:%s%s:%s" % (k, "ham" if ham else "", kind))
         real = None
         try:
             with _patched(cls, kern, staticmethod(stub.wrap(loop_py))), np.errstate(divide="raise", invalid="raise"), warnings.catch_warnings():
@@ -616,7 +644,9 @@ def corr_adaptive(ctx, C, n_cases):
         if orc is None:
             continue    # a halving produced a non-integral tick count: not representable, skip the case
         line = "ADP %s %d %d %d %d %d %s %s" % (k, int(cfg["guards"][k]), _close_bit(ts), maxS, minS, h0, _ints(ts), orc)
-        C.add("adaptive_integrate", line, real, {"grid": ts, "kind": k, "h0": h0, "maxS": maxS, "minS": minS, "oracle": orc})
+        C.add("adaptive_integrate", line, real, {"grid": ts, "kind": k, "hamiltonian_twin": ham, "h0": h0, "maxS": maxS, "minS": minS, "oracle": orc})
+        kern = kern[:-4] if ham else kern
+        fake = _fake_system(False)
         # ---- event driver, no crossing
         if kind in ("asc", "asc2", "desc", "desc2") and rng.random() < 0.6:
             stub2 = _AdaptiveStub(rng, h0 * TICK, rng.randint(0, 8))
@@ -755,11 +785,301 @@ def correspondence(ctx):
 
 
 # =====================================================================================================
+# numerical shell on the real compiled code (validation of the model's oracles + failing-input search)
+# =====================================================================================================
+
+KEY_DOP853_DESC = "adaptive-descending-grid:DOP853"
+KEY_EVENT_DESC = "adaptive-descending-event:%s"
+KEY_SYM_TIMES = "symplectic-backward-times-sign"
+KEY_DIR_NONAUTO = "directed-nonautonomous-time"
+
+
+_REPORTED = set()
+
+
+def _viol(ctx, key, what, replay):
+    """one report per key and run (the first concrete input found)"""
+    if key in _REPORTED:
+        return
+    _REPORTED.add(key)
+    ctx.violation(key, what, replay)
+
+
+def _maxerr(a, b):
+    return float(np.max(np.abs(np.asarray(a, dtype=float) - np.asarray(b, dtype=float))))
+
+
+def validate_dense_at_zero(ctx):
+    """Oracle hypothesis of `adaptive_ascending_faithful`: the dense interpolants at x = 0 return the left node exactly."""
+    from hiten.algorithms.integrators import rk
+    from hiten.algorithms.integrators.coefficients.rk45 import P as P45
+    rs = np.random.RandomState(ctx.rng.randrange(2 ** 31))
+    bad = 0
+    for _ in range(50):
+        dim = rs.randint(1, 7)
+        y = rs.randn(dim)
+        Q = rs.randn(dim, P45.shape[1]) * 10.0 ** rs.randint(-3, 4)
+        F = rs.randn(7, dim) * 10.0 ** rs.randint(-3, 4)
+        h = float(rs.choice([-1, 1]) * 10.0 ** rs.uniform(-4, 1))
+        a = rk._rk45_eval_dense(y, Q, P45, 0.0, h)
+        b = rk._dop853_eval_dense(y, F, 7, 0.0)
+        ctx.traces_validated += 2
+        if not (np.array_equal(a, y) and np.array_equal(b, y)):
+            bad += 1
+    ok = bad == 0
+    ctx.obligations["oracle:dense-interpolant-at-0-is-left-node"] = ok
+    if not ok:
+        ctx.broken.append(("oracle:dense-interpolant-at-0-is-left-node", "%d of 50 evaluations at x=0 differ from y_old" % bad))
+
+
+def _classify(err_desc, err_ref):
+    """faithful unless the error is orders of magnitude above what the same integrator achieves on the mirrored (ascending) problem"""
+    return "correct" if err_desc <= 1e3 * max(err_ref, 1e-12) or err_desc <= 1e-7 else "wrong"
+
+
+def numerics_lowlevel(ctx):
+    """Every low-level integrator on strictly decreasing grids against closed-form solutions: correct | rejected | wrong."""
+    from hiten.algorithms.integrators import rk
+    rng = ctx.rng
+    kinds = ["rotation", "nonauto"] + (["riccati"] if ctx.thorough() else [])
+    table = {}
+    integs = [("RK%d" % p, (lambda p=p: rk.FixedRK(p))) for p in sorted(rk.FixedRK._map)]
+    integs += [("RK45", lambda: rk.AdaptiveRK(5, rtol=1e-10, atol=1e-10)), ("DOP853", lambda: rk.AdaptiveRK(8, rtol=1e-10, atol=1e-10))]
+    for kind in kinds:
+        sysm, exact, y0, _ = _user_system(kind)
+        for name, mk in integs:
+            reps = 3 if ctx.thorough() else 1
+            for rep in range(reps):
+                T = rng.choice([0.5, 1.0, 1.5, 2.0])
+                n = rng.choice([2, 21, 64]) if name in ("RK45", "DOP853") else rng.choice([201, 401])
+                if rng.random() < 0.5 and n > 2:
+                    inc = np.sort(np.array([rng.random() for _ in range(n - 2)])) * T      # non-uniform grid
+                    inc = np.concatenate([[0.0], inc, [T]])
+                    if np.any(np.diff(inc) <= 0) or name.startswith("RK") and name not in ("RK45",) and np.max(np.diff(inc)) > 0.05:
+                        inc = np.linspace(0.0, T, n)
+                else:
+                    inc = np.linspace(0.0, T, n)
+                if rep == 0:
+                    inc = np.concatenate([[0.0, 1e-10], inc[1:]])      # tiny first step: not a zero-span grid
+                t_start = rng.choice([0.0, 0.0, 0.25])
+                g_desc = t_start - inc
+                g_asc = t_start + inc
+                ctx.case(("lowlevel", kind, name, T, n, t_start), kind="lowlevel:%s" % name,
+                         sample={"system": kind, "integrator": name, "grid": "desc %g..%g (%d)" % (g_desc[0], g_desc[-1], n)} if rep == 0 else None)
+                # reference accuracy on the ascending grid (also: stamps / first sample there)
+                sol_a = mk().integrate(sysm, y0, g_asc.copy())
+                ex_a = np.array([exact(t - t_start, y0) if kind != "nonauto" else _nonauto_exact(t_start, t, y0) for t in g_asc])
+                err_a = _maxerr(sol_a.states, ex_a)
+                if not (np.array_equal(sol_a.times, g_asc) and np.array_equal(sol_a.states[0], y0)):
+                    _viol(ctx, "samples-at-requested-times:%s" % name, "%s: returned times differ from the requested grid or first sample is not y0" % name,
+                                  {"system": kind, "integrator": name, "grid": g_asc.tolist(), "times": np.asarray(sol_a.times).tolist(),
+                                   "first_state": np.asarray(sol_a.states[0]).tolist(), "y0": y0.tolist()})
+                if err_a > 1e-5:
+                    _viol(ctx, "ascending-grid-accuracy:%s" % name, "%s: error %.3g on an ascending grid" % (name, err_a),
+                                  {"system": kind, "integrator": name, "grid": g_asc.tolist(), "max_error": err_a})
+                try:
+                    sol_d = mk().integrate(sysm, y0, g_desc.copy())
+                except Exception as ex:
+                    table.setdefault(name, set()).add("rejected:" + type(ex).__name__)
+                    continue
+                ex_d = np.array([exact(t - t_start, y0) if kind != "nonauto" else _nonauto_exact(t_start, t, y0) for t in g_desc])
+                err_d = _maxerr(sol_d.states, ex_d)
+                verdict = _classify(err_d, err_a)
+                if not (np.array_equal(sol_d.times, g_desc) and np.array_equal(sol_d.states[0], y0)):
+                    verdict = "wrong"
+                table.setdefault(name, set()).add(verdict)
+                if verdict == "wrong":
+                    const = bool(np.all(sol_d.states == y0))
+                    key = KEY_DOP853_DESC if name == "DOP853" else "descending-grid:%s" % name
+                    _viol(ctx, key, "%s.integrate on a strictly decreasing grid returns a silently wrong trajectory (%s; max error %.3g, ascending reference %.3g)" % (
+                        name, "constant y0 at every requested time" if const else "not the flow", err_d, err_a),
+                        {"call": "hiten.algorithms.integrators.rk: %s.integrate(system, y0, t_vals)" % name, "system": kind, "y0": y0.tolist(),
+                         "t_vals": g_desc.tolist(), "expected_last_state": ex_d[-1].tolist(), "observed_last_state": np.asarray(sol_d.states[-1]).tolist(),
+                         "max_error": err_d, "error_on_mirrored_ascending_grid": err_a, "constant_y0": const})
+    # ---- event-enabled paths with tmax < t0 (rotation: y0 = (1, 0.25); x = 0.5 is crossed at t = -0.8194 going backward)
+    sysm, exact, y0, _ = _user_system("rotation")
+
+    def ev(t, y):
+        return y[0] - 0.5
+
+    for name, mk in integs:
+        tmax = -rng.choice([1.0, 1.5, 2.0])
+        grid = np.linspace(0.0, tmax, 201) if name not in ("RK45", "DOP853") else np.array([0.0, tmax])
+        ctx.case(("event-desc", name, tmax), kind="event-desc:%s" % name)
+        try:
+            sol = mk().integrate(sysm, y0, grid, event_fn=ev)
+        except Exception as ex:
+            table.setdefault(name + "+event", set()).add("rejected:" + type(ex).__name__)
+            continue
+        t_end = float(sol.times[-1])
+        err = _maxerr(sol.states[-1], exact(t_end, y0))
+        on_event = abs(float(sol.states[-1][0]) - 0.5) < 1e-8
+        verdict = "correct" if (err < 1e-6 and tmax - 1e-12 <= t_end <= 1e-12 and (on_event or t_end == tmax)) else "wrong"
+        table.setdefault(name + "+event", set()).add(verdict)
+        if verdict == "wrong":
+            key = KEY_EVENT_DESC % name if name in ("RK45", "DOP853") else "descending-event:%s" % name
+            _viol(ctx, key, "%s.integrate(event_fn=...) with tmax < t0 returns the initial state as the state at tmax=%g (error %.3g)" % (name, tmax, err),
+                          {"call": "%s.integrate(system, y0, [0, %g], event_fn=y[0]-0.5)" % (name, tmax), "system": "rotation", "y0": y0.tolist(),
+                           "returned_times": np.asarray(sol.times).tolist(), "returned_states": np.asarray(sol.states).tolist(),
+                           "expected_state_at_returned_time": exact(t_end, y0).tolist(), "error": err})
+    ctx.extra["descending_grid_outcomes"] = {k: sorted(v) for k, v in table.items()}
+    return table
+
+
+def _nonauto_exact(t_start, t, y0):
+    # y' = t, z' = cos(t) z  started at t_start
+    return np.array([y0[0] + 0.5 * (t * t - t_start * t_start), y0[1] * np.exp(np.sin(t) - np.sin(t_start))])
+
+
+def numerics_propagate(ctx):
+    """`_propagate_dynsys`: stamps, flow at -t, forward∘backward round trip, selective flipping; symplectic low level."""
+    from scipy.integrate import solve_ivp
+    from hiten.algorithms.dynamics.base import _DirectedSystem, _propagate_dynsys
+    from hiten.algorithms.dynamics.rtbp import rtbp_dynsys, variational_dynsys
+    from hiten.algorithms.integrators import rk
+    from hiten.algorithms.integrators import symplectic as sy
+    rng = ctx.rng
+    mu = 0.012150585609624
+    cases = []
+    rot, rot_exact, rot_y0, _ = _user_system("rotation")
+    non, non_exact, non_y0, _ = _user_system("nonauto")
+    methods_all = [("fixed", 4), ("fixed", 6), ("fixed", 8), ("adaptive", 5), ("adaptive", 8)]
+    cases += [("rotation", rot, rot_y0, m, o) for m, o in methods_all]
+    cases += [("nonauto", non, non_y0, m, o) for m, o in (methods_all if ctx.thorough() else [("fixed", 8), ("adaptive", 8)])]
+    x0 = np.array([0.8, 0.0, 0.05, 0.0, 0.15, 0.0])
+    cases += [("crtbp", rtbp_dynsys(mu), x0, m, o) for m, o in (methods_all if ctx.thorough() else [("fixed", 8), ("adaptive", 8)])]
+    v0 = np.concatenate([np.eye(6).ravel(), x0])
+    cases += [("variational", variational_dynsys(mu), v0, m, o) for m, o in ([("fixed", 6), ("adaptive", 8), ("adaptive", 5)] if ctx.thorough() else [("adaptive", 8)])]
+    hs, hfield, hy0 = _poly_ham_system()
+    cases += [("polyham", hs, hy0, "symplectic", o) for o in ([2, 4, 6, 8] if ctx.thorough() else [4, 6])]
+    rt_table = {}
+    for name, sysm, y0, method, order in cases:
+        T = rng.choice([0.75, 1.0, 1.25])
+        steps = {("fixed", 4): 2001, ("fixed", 6): 801, ("fixed", 8): 401}.get((method, order), 33)
+        if method == "symplectic":
+            steps = {2: 4001, 4: 801, 6: 401, 8: 201}[order]
+        kw = dict(rtol=1e-11, atol=1e-11) if method == "adaptive" else {}
+        ctx.case(("propagate-num", name, method, order, T), kind="roundtrip:%s:%s" % (name, method),
+                 sample={"system": name, "method": method, "order": order, "T": T})
+        try:
+            sol_f = _propagate_dynsys(sysm, y0, 0.0, T, forward=1, steps=steps, method=method, order=order, **kw)
+            sol_b = _propagate_dynsys(sysm, sol_f.states[-1], 0.0, T, forward=-1, steps=steps, method=method, order=order, **kw)
+            sol_m = _propagate_dynsys(sysm, y0, 0.0, T, forward=-1, steps=steps, method=method, order=order, **kw)
+        except Exception as ex:
+            _viol(ctx, "propagate-raises:%s:%s" % (name, method), "_propagate_dynsys raised %s" % type(ex).__name__,
+                          {"system": name, "method": method, "order": order, "error": str(ex)[:300]})
+            continue
+        grid = np.linspace(0.0, T, steps)
+        scale = 1.0 + float(np.max(np.abs(y0)))
+        # (a) stamps
+        tb = np.asarray(sol_m.times, dtype=float)
+        stamps_ok = (np.array_equal(tb, -grid) and np.all(tb <= 0.0) and np.all(np.diff(tb) < 0.0)
+                     and np.array_equal(np.asarray(sol_f.times, dtype=float), grid))
+        if not stamps_ok:
+            key = KEY_SYM_TIMES if method == "symplectic" else "backward-times-sign:%s" % method
+            _viol(ctx, key, "_propagate_dynsys(method=%r, forward=-1): returned times run %g … %g, expected 0 … %g (non-positive, decreasing)" % (
+                method, tb[0], tb[-1], -T),
+                {"call": "_propagate_dynsys(sys, y0, 0, %g, forward=-1, steps=%d, method=%r, order=%d)" % (T, steps, method, order), "system": name,
+                 "expected_times_first_last": [0.0, -T], "observed_times_first_last": [float(tb[0]), float(tb[-1])],
+                 "observed_times_head": tb[:4].tolist()})
+        # (b) first sample, sample count
+        if not (np.array_equal(sol_m.states[0], y0) and len(sol_m.states) == steps):
+            _viol(ctx, "first-sample:%s" % method, "first returned state is not the initial state", {"system": name, "method": method, "order": order})
+        # (c) the backward end state is the flow at -T (independent reference: SciPy on the base field, integrated towards -T)
+        if name == "polyham":
+            fref = hfield
+        else:
+            rhs = sysm.rhs
+            fref = lambda t, y, rhs=rhs: rhs(t, y)
+        ref = solve_ivp(fref, [0.0, -T], y0, method="DOP853", rtol=1e-12, atol=1e-13).y[:, -1]
+        ref_f = solve_ivp(fref, [0.0, T], y0, method="DOP853", rtol=1e-12, atol=1e-13).y[:, -1]
+        err_fwd = _maxerr(sol_f.states[-1], ref_f) / scale        # what this method/step count achieves in the forward direction
+        err_flow = _maxerr(sol_m.states[-1], ref) / scale
+        # (d) round trip
+        err_rt = _maxerr(sol_b.states[-1], y0) / scale
+        rt_table["%s:%s%d" % (name, method, order)] = {"roundtrip": err_rt, "flow_at_minus_T": err_flow}
+        rt_table["%s:%s%d" % (name, method, order)]["forward"] = err_fwd
+        # direction / sign defects are O(T) ~ 1.  Accept anything within 1000x of the forward accuracy of the same configuration
+        # (backward integration of these systems is as well conditioned as forward over T ~ 1), with an absolute floor.
+        tol = max(1e-7, 1e3 * err_fwd)
+        if err_fwd > 1e-3:
+            _viol(ctx, "forward-accuracy:%s:%s" % (name, method), "forward propagation itself is inaccurate (%.3g)" % err_fwd,
+                  {"system": name, "method": method, "order": order, "T": T, "steps": steps, "relative_error": err_fwd})
+        if err_flow > tol:
+            key = KEY_DIR_NONAUTO if name == "nonauto" else "backward-is-not-flow-at-minus-t:%s:%s" % (name, method)
+            _viol(ctx, key, "_propagate_dynsys(forward=-1) for duration %g does not return the state the flow had at time -%g (system %s, method %s/%d): relative error %.3g" % (
+                T, T, name, method, order, err_flow),
+                {"call": "_propagate_dynsys(sys, y0, 0, %g, forward=-1, steps=%d, method=%r, order=%d)" % (T, steps, method, order), "system": name,
+                 "y0": y0.tolist(), "expected_state_at_minus_T": ref.tolist(), "observed": np.asarray(sol_m.states[-1]).tolist(), "relative_error": err_flow})
+        if err_rt > tol and name != "nonauto":
+            _viol(ctx, "roundtrip:%s:%s" % (name, method), "forward then backward for %g does not return to the start (system %s, method %s/%d): relative error %.3g" % (
+                T, name, method, order, err_rt),
+                {"system": name, "method": method, "order": order, "T": T, "steps": steps, "y0": y0.tolist(),
+                 "returned": np.asarray(sol_b.states[-1]).tolist(), "relative_error": err_rt})
+    ctx.extra["roundtrip_relative_errors"] = rt_table
+    # ---- selective flipping means what it says: flip=[all] == None; flip=[1] on the rotation gives y' = (y1, +y0)
+    T = 1.0
+    s_none = _propagate_dynsys(rot, rot_y0, 0.0, T, forward=-1, steps=401, method="fixed", order=8)
+    s_all = _propagate_dynsys(rot, rot_y0, 0.0, T, forward=-1, steps=401, method="fixed", order=8, flip_indices=[0, 1])
+    s_one = _propagate_dynsys(rot, rot_y0, 0.0, T, forward=-1, steps=401, method="fixed", order=8, flip_indices=[1])
+    hyp = np.array([rot_y0[0] * np.cosh(T) + rot_y0[1] * np.sinh(T), rot_y0[0] * np.sinh(T) + rot_y0[1] * np.cosh(T)])
+    ctx.case(("flip",), kind="flip")
+    if not np.array_equal(s_none.states, s_all.states) or _maxerr(s_one.states[-1], hyp) > 1e-9:
+        _viol(ctx, "selective-flip", "flip_indices does not negate exactly the listed components",
+                      {"flip_all_equals_none": bool(np.array_equal(s_none.states, s_all.states)), "flip_[1]_end": s_one.states[-1].tolist(), "expected": hyp.tolist()})
+    # ---- symplectic low level: descending grid == directed system on the ascending grid; requested times
+    integ = sy._ExtendedSymplectic(order=6)
+    g = np.linspace(0.0, 1.0, 201)
+    s_desc = integ.integrate(hs, hy0, -g)
+    s_dir = integ.integrate(_DirectedSystem(hs, -1), hy0, g.copy())
+    ref = solve_ivp(hfield, [0.0, -1.0], hy0, method="DOP853", rtol=1e-12, atol=1e-13).y[:, -1]
+    ctx.case(("symplectic-lowlevel",), kind="symplectic-lowlevel")
+    e1 = _maxerr(s_desc.states[-1], ref)
+    s_asc = integ.integrate(hs, hy0, g.copy())
+    e_asc = _maxerr(s_asc.states[-1], solve_ivp(hfield, [0.0, 1.0], hy0, method="DOP853", rtol=1e-12, atol=1e-13).y[:, -1])
+    ctx.extra["symplectic_lowlevel_errors"] = {"descending": e1, "ascending": e_asc}
+    if _classify(e1, e_asc) == "wrong" or not np.array_equal(s_desc.times, -g) or not np.array_equal(s_desc.states[0], hy0):
+        _viol(ctx, "descending-grid:Symplectic", "symplectic integrator on a descending grid: error %.3g / wrong stamps" % e1,
+                      {"error": e1, "times_first_last": [float(s_desc.times[0]), float(s_desc.times[-1])]})
+    if not np.array_equal(s_desc.states, s_dir.states):
+        _viol(ctx, "symplectic-directed-vs-descending", "directed system on an ascending grid and base system on the negated grid differ", {})
+    if not np.array_equal(np.asarray(s_dir.times), g):
+        # same defect as KEY_SYM_TIMES seen at the integrator level (clause: samples are returned exactly at the requested times)
+        ctx.extra["symplectic_integrate_fwd-1_times"] = {"requested_first_last": [0.0, 1.0], "returned_first_last": [float(s_dir.times[0]), float(s_dir.times[-1])]}
+        _viol(ctx, KEY_SYM_TIMES, "_ExtendedSymplectic.integrate(directed system, t_vals) returns times -t_vals instead of the requested t_vals; "
+                      "_propagate_dynsys(method='symplectic', forward=-1) then signs them again (stamps 0…+T for the flow at 0…-T)",
+                      {"call": "_ExtendedSymplectic(6).integrate(_DirectedSystem(hamsys,-1), y0, linspace(0,1,201))",
+                       "requested_times_first_last": [0.0, 1.0], "returned_times_first_last": [float(s_dir.times[0]), float(s_dir.times[-1])]})
+
+
+def check_cfg_against_findings(ctx, cfg):
+    """Each switch value that makes a clause fail (negation theorems in Props/C10.lean) must be rediscovered as a concrete
+    failing input by the numerical search above; report if a negation is 'proved' but no failing input was found."""
+    found = {v["key"] for v in ctx.violations} | {k["key"] for k in ctx.known}
+    expect = []
+    if not cfg["guards"]["853"]:
+        expect.append(KEY_DOP853_DESC)
+    if not cfg["guards"]["Event45"]:
+        expect.append(KEY_EVENT_DESC % "RK45")
+    if not cfg["guards"]["Event853"]:
+        expect.append(KEY_EVENT_DESC % "DOP853")
+    if cfg["symTimesSign"] != 1:
+        expect.append(KEY_SYM_TIMES)
+    if cfg["dirTimeCoef"] != -1:
+        expect.append(KEY_DIR_NONAUTO)
+    missing = [k for k in expect if k not in found]
+    ctx.extra["defect_switches"] = {"expected_findings": expect, "not_rediscovered_on_real_code": missing}
+    for k in missing:
+        ctx.broken.append(("witness-on-real-code:" + k, "the model says the clause fails for the extracted switches, but the real code did not show the failing input"))
+        ctx.obligations["witness-on-real-code:" + k] = False
+
+
+# =====================================================================================================
 # run
 # =====================================================================================================
 
 PROP_MODS = ["HitenModel.Props.C10"]
-SRC_MODS = ["HitenModel.Props.C10", "HitenModel.Gen.C10", "HitenModel.Core.C10", "HitenModel.Lemmas.C10"]
+SRC_MODS = ["HitenModel.Props.C10", "HitenModel.Gen.C10", "HitenModel.Core.C10", "HitenModel.Lemmas.C10", "HitenModel.Lemmas.C10Model"]
 
 
 def run(ctx):
@@ -771,5 +1091,19 @@ def run(ctx):
         if ctx.thorough():
             ctx.leanchecker(PROP_MODS)
     correspondence(ctx)
+    validate_dense_at_zero(ctx)
+    numerics_lowlevel(ctx)
+    numerics_propagate(ctx)
+    check_cfg_against_findings(ctx, _CACHE["cfg"])
+    ctx.search_ran = True
+    ctx.assumptions += [
+        "times are modelled as integer ticks of an arbitrary dyadic unit (every float64 grid is such a grid); float rounding of t+h is not modelled",
+        "Runge-Kutta step, step-size controller, dense interpolant and np.isclose are oracle parameters of the model (theorems hold for all oracles; "
+        "the correspondence replays the oracle answers of the real run); exact-flow statements use `IsFlow` oracles",
+        "flow-level theorems: global C1 solutions staying in a set where the field is Lipschitz (Mathlib ODE_solution_unique_univ)",
+        "np.searchsorted/numba semantics of negative indices are taken from numpy when the python bodies of the compiled drivers are executed",
+    ]
+    ctx.notes.append("clauses violated by the current tree are carried as negation-with-witness theorems (*_current_false, *_witness) plus *_iff characterisations; "
+                     "see notes/C10.md for the replacement theorems once notes/C10_fix_{1,2,3}.diff are applied")
     ctx.rule = ("cells = (entry point, integrator/method/order, direction, grid kind [ascending/descending/zero-span/non-monotone/short], "
                 "grid size, controller oracle); distinct by that tuple; non-trivial = the case reaches a step loop or a sign decision")
